@@ -3,7 +3,7 @@ CONSTANTS
     Pat = "distinct"
     ServedU = "honest"
     DirU = "atomic"
-    AllDirOptions = {-1, 0, 1, 2}
+    AllDirOptions = {0, 1, 2, 3}
     PerNameOnSuccess = FALSE
     ListNamesCanonical = FALSE
     FindPrefersDirectChild = FALSE
